@@ -33,6 +33,13 @@ class TensorT:
         return "Tensor" in names
 
 
+class ArrT(TensorT):
+    """numpy array attribute"""
+
+    def isinstance(self, ex, st, names):
+        return "ndarray" in names
+
+
 class NetM:
     """evolvable network: architecture token + weight tensor"""
 
@@ -86,7 +93,7 @@ def deepcopy(ex, st, args, kwargs):
         if id(x) in memo:
             return memo[id(x)]
         if isinstance(x, TensorT):
-            r = TensorT(x.val)
+            r = type(x)(x.val)
         elif isinstance(x, list):
             r = []
             memo[id(x)] = r
@@ -145,7 +152,7 @@ def footprint(x, acc=None, seen=None):
     return acc
 
 
-ATTRS = ["fitness", "steps", "scores", "index", "lr", "mut", "registry", "tensor_attr", "array_attr"]     # inspect_attributes excludes networks/optimizers
+ATTRS = ["fitness", "steps", "scores", "index", "lr", "mut", "registry", "tensor_attr", "array_attr", "noise_arr"]     # inspect_attributes excludes networks/optimizers
 NETS = ["actor", "critic"]
 OPTS = [("optimizer", ["actor"], "lr"), ("critic_optimizer", ["critic"], "lr")]
 
@@ -170,7 +177,8 @@ def make_agent(trained=True):
         o.fields[oname] = w
     o.fields.update(dict(registry=reg, lr=lr, index=z3.Int(fresh_name("index")), mut="None", accelerator=None, torch_compiler=None,
                          fitness=[z3.Real(fresh_name("fit")), z3.Real(fresh_name("fit"))], steps=[z3.Int(fresh_name("steps"))],
-                         scores=[z3.Real(fresh_name("score"))], tensor_attr=TensorT(label="tensor_attr"), array_attr=TensorT(label="array_attr")))
+                         scores=[z3.Real(fresh_name("score"))], tensor_attr=TensorT(label="tensor_attr"), array_attr=TensorT(label="array_attr"),
+                         noise_arr=ArrT(label="noise_arr")))          # an array-valued CONSTRUCTOR argument (DDPG/TD3 expl_noise): stored as given
     o.fields["evolvable_attributes"] = Fn(model=lambda ex, st, a, k: {n: o.fields[n] for n in NETS}, name="evolvable_attributes")
     o.fields["mutation_hook"] = Fn(model=lambda ex, st, a, k: None, name="mutation_hook")
     return o
@@ -186,8 +194,13 @@ def build(tier):
         st.locals["index"] = z3.Int("new_index") if ex.decide(st, z3.Bool("index_given")) else None
         st.locals["wrap"] = True
     # constructor of the clone: a fresh agent of the same class with its own freshly initialised networks/optimizers/lists
-    P.lib[BASE] = lambda ex, st, a, k: make_agent(trained=False)
-    P.lib[BASE + ".inspect_attributes"] = lambda ex, st, a, k: ({} if k.get("input_args_only") else {n: None for n in ATTRS})
+    def construct(ex, st, a, k):
+        c = make_agent(trained=False)
+        if "noise_arr" in k:
+            c.fields["noise_arr"] = k["noise_arr"]          # the constructor keeps the array object it is handed
+        return c
+    P.lib[BASE] = construct
+    P.lib[BASE + ".inspect_attributes"] = lambda ex, st, a, k: ({"noise_arr": a[0].fields["noise_arr"]} if k.get("input_args_only") else {n: None for n in ATTRS})
     P.lib["copy.deepcopy"] = deepcopy
     P.lib["torch.clone"] = lambda ex, st, a, k: TensorT(a[0].val)
     P.lib["torch.equal"] = lambda ex, st, a, k: a[0].val == a[1].val
@@ -218,7 +231,7 @@ def build(tier):
             out.append(z3.BoolVal(isinstance(a, list) and len(a) == len(b)))
             out += [z3ify(x) == z3ify(y) for x, y in zip(a, b)]
         out += [z3ify(result.fields["lr"]) == z3ify(p.fields["lr"]), result.fields["tensor_attr"].val == p.fields["tensor_attr"].val,
-                result.fields["array_attr"].val == p.fields["array_attr"].val]
+                result.fields["array_attr"].val == p.fields["array_attr"].val, result.fields["noise_arr"].val == p.fields["noise_arr"].val]
         out.append(z3ify(result.fields["index"]) == (z3ify(index) if index is not None else z3ify(p.fields["index"])))
         # ---- independent: nothing mutable is shared
         def roots(a):
@@ -226,7 +239,7 @@ def build(tier):
             # (plus tensor/array attributes).  Immutable-by-convention configuration (optimizer kwargs, network-name lists) is not listed
             # by the property and IS shared by the real code (clone passes the parent's registry config objects to the new wrappers).
             r = [a.fields[n].w for n in NETS] + [t for o, _, _ in OPTS for t in a.fields[o].fields["optimizer"].state]
-            r += [a.fields[k] for k in ("fitness", "steps", "scores", "tensor_attr", "array_attr")] + [a.fields["registry"].fields["hp_config"]]
+            r += [a.fields[k] for k in ("fitness", "steps", "scores", "tensor_attr", "array_attr", "noise_arr")] + [a.fields["registry"].fields["hp_config"]]
             return r
         shared = footprint(roots(result)) & footprint(roots(p))
         out.append(z3.BoolVal(not shared) if not shared else z3.BoolVal(False))
